@@ -281,13 +281,17 @@ def _shapes(tier: str, seed: int) -> List[dict]:
     return out
 
 
+def prepare(tier: str, seed: int) -> None:
+    SHAPES[:] = _shapes(tier, seed)
+    SHIPPED[:] = _shipped()
+
+
 def main() -> int:
     run = Run(PID, "model_checking")
     run.encode("odata_query.visitor.NodeVisitor.visit", "odata_query.visitor.NodeVisitor.generic_visit",
                "odata_query.visitor.NodeTransformer.generic_visit", "odata_query.visitor.iter_dataclass_fields",
                "odata_query.ast dataclass __eq__", "every shipped pure-Python visitor's visit_* (mutation check)")
-    SHAPES[:] = _shapes(run.tier, run.seed)
-    SHIPPED[:] = _shipped()
+    prepare(run.tier, run.seed)
     run.bounds = {"leaf strings / names / namespace segments": "symbolic str, len == 1 (one arbitrary code point)",
                   "operators": "symbolic choice per node at nesting depth 1", "shapes": len(SHAPES),
                   "nesting": "depth <= 1 exhaustive over the leaf set (binary forms over a reduced leaf set), "
